@@ -439,14 +439,14 @@ def r8_first_use_validates(ck, P, rid='C16-R8'):
     V = common.find_validate(P)
     # exported functions that validate a given image parameter themselves, or hand it to one that does (fixpoint)
     validates = {}
-    for f in common.public_api(P):
+    for f in P.functions():
         for c in f.calls():
             if isinstance(c.callee, str) and P.resolve(f, c.callee) is V and f.strip_casts(c.a[0])[0] == 'a':
                 validates.setdefault(f, set()).add(f.strip_casts(c.a[0])[1])
     grew = True
     while grew:
         grew = False
-        for f in common.public_api(P):
+        for f in P.functions():
             for c in f.calls():
                 g = P.resolve(f, c.callee) if isinstance(c.callee, str) else None
                 if g is None or g not in validates or g is f:
